@@ -400,11 +400,22 @@ func (c *ctl) doStep(l label) {
 		// the worker is in front of a call of another job: the abandoned job has completed, nobody takes its result
 		c.parked[w] = &s
 		lo.Fin = &result{Kind: "err", E: "ECtx"}
+	case s.kind == "arrive" && c.arrivalOf(s, w) && (id < 0 || id >= len(c.s.Jobs) || route(&c.s.G, c.s.Jobs[id].K) != w):
+		// the call just made named a job that is not one of this worker's (no model run does that): it is written down
+		// as it was seen, and nothing is concluded about that job
+		c.parked[w] = &s
+		lo.Note = fmt.Sprintf("worker %d made a call for job %d, which is routed elsewhere", w, id)
 	case s.kind == "arrive" && c.arrivalOf(s, w):
 		// the worker is already in front of a call of another job: job id has completed, its caller returns
 		c.parked[w] = &s
 		s2, ok := c.wait()
-		if !ok || s2.kind != "returned" || s2.job != id {
+		if !ok {
+			// the worker has moved on but the caller of job id was not answered within the bound: what was seen is
+			// written down (a call, no completion) and the run goes on
+			lo.Note = fmt.Sprintf("worker %d moved on to job %d but the caller of job %d was not answered within 10 s", w, s.job, id)
+			break
+		}
+		if s2.kind != "returned" || s2.job != id {
 			c.anomaly(l, fmt.Sprintf("worker %d moved on to job %d but the caller of job %d did not return (got %s job %d)", w, s.job, id, s2.kind, s2.job))
 			return
 		}
